@@ -177,7 +177,7 @@ func init() {
 			}
 		}
 		// random multi-interference histories incl. mid-cycle interference
-		nr := ctx.N(600, 40000)
+		nr := ctx.N(8000, 80000)
 		for i := 0; i < nr; i++ {
 			sc := c05Base(r, pick(r, "hwmon", "hwmon", "file", "sim"), "")
 			if sc.Fan.Kind == "file" {
